@@ -494,7 +494,24 @@ PARSE_CLASSES = [
           "after `--` a current word that looks like a shorthand series (`-- -c`) is still run through the pending-flag fix-up: a phantom `-` is added to the parsed words and the dash positional index is off by one"),
 ]
 
+
+def _cc_pos_applies(i):
+    return not i.get("cobraSide")
+
+
+def _cc_pos_neutral(i):
+    o = copy.deepcopy(i)
+    for c in (o.get("tree") or {}).get("cmds") or []:
+        c["npos"], c["posAny"], c["ndash"], c["dashAny"] = 0, False, 0, False
+    return o
+
+
+PARSE_CLASSES.append(
+    Class("complete_protocol_positional_from_dash_slot", ("C20",), ("ccomplete",), _cc_pos_applies, _cc_pos_neutral,
+          "through cobra's `__complete` the bridged ValidArgsFunction always serves the completions registered for after `--` (or nothing): cobra 1.9.1 parses the line once with an appended `--`, the flag set keeps ArgsLenAtDash != -1, and storage.hasPositional/getPositional read that as 'after a dash'; carapace's own entry point serves the positional completions for the same position"))
+
 BY = {c.id: c for c in PARSE_CLASSES}
+BY["complete_protocol_positional_from_dash_slot"].codes = ("carapace_registered:positional_slot",)
 BY["subcommand_after_parent_flags"].codes = ("subcommand_",)
 BY["shorthand_series_after_dash"].codes = ("wrong_slot:dash",)
 
